@@ -64,12 +64,22 @@ def set_at(v, path, nv):
 
 
 def shard_fn(shard, nshards, seed, tier, exe, ntrees, ndoubles):
+    import sys
+    sys.setrecursionlimit(50000)
     rng = random.Random("%d/%d/c02" % (seed, shard))
     sh = core.Shard()
     tg = TreeGen(rng, max_depth=6, budget=30)
     cases, meta = [], {}
     for i in range(ntrees // nshards):
         toks, value = tg.tree()
+        if rng.random() < 0.004:
+            # "any nesting": the same tree 64..300 containers further down (indentation and closing brackets for every level, under every flag set)
+            for _ in range(rng.choice([64, 65, 129, 200, 300])):
+                if rng.random() < 0.5:
+                    toks, value = ["["] + toks + ["]"], [value]
+                else:
+                    toks, value = ["{", "k" + b"w".hex()] + toks + ["}"], {b"w": value}
+            sh.count("trees.wrapped_in_64_to_300_more_levels")
         cid = "%d.%d" % (shard, i)
         extra = []
         cases_b0 = "B 0 " + " ".join(toks)
